@@ -97,6 +97,11 @@ func streamDpkg(g *core.G) {
 		if _, err := version.Parse(a); err != nil {
 			continue
 		}
+		// dpkg is stricter than the property's grammar in places (e.g. an empty revision
+		// after '-'): only pairs that dpkg itself accepts are compared
+		if exec.Command("dpkg", "--validate-version", a).Run() != nil || exec.Command("dpkg", "--validate-version", b).Run() != nil {
+			continue
+		}
 		g.Emit("verfull", core.Hex(a), core.Hex(b))
 	}
 }
